@@ -103,13 +103,6 @@ pub proof fn lemma_yields_quiet(o: Seq<Ev>, f: Seq<Ev>)
         lemma_yields_quiet(o, d);
     }
 }
-/// ABSTRACTION (rule R-abs): lookup.rs:166-222, the choice of the next nodes to query (fold / pick_iterate_nodes / insert_sorted_node over
-/// generic iterators: outside Verus' subset).  ASSUMED frame: it reads requested_nodes and only writes all_sorted_nodes.
-#[verifier::external_body]
-pub fn vx_abs_pick_nodes(all_sorted_nodes: &mut Vec<(Distance, NodeHandle, bool)>, requested_nodes: &HashSet<NodeHandle>, nodes: Vec<NodeHandle>,
-                         dist_to_beat: DistanceToBeat, target_id: InfoHash) -> (r: (Option<[(NodeHandle, bool); ITERATIVE_PICK_NUM]>, DistanceToBeat))
-{ unimplemented!() }
-
 //@begin const src/action/lookup.rs - INITIAL_PICK_NUM
 pub const INITIAL_PICK_NUM: usize = 4;
 //@end
@@ -118,14 +111,158 @@ pub mod bucket {
     pub const MAX_BUCKET_SIZE: usize = 8;
 //@end
 }
-// ASSUMED (lookup.rs:436-457, 521-542: zip/iter_mut adapters, binary_search_by): the two helpers that build a new search's node list.
-// They touch nothing but their arguments; which nodes they pick is C02's matter (not applicable).
+// TRUSTED std contracts used by the node-selection helpers
+// <[T]>::binary_search_by: only the index range of the answer is assumed (what the closure orders by is not needed by any claimed clause)
+pub assume_specification<'a, T, F: FnMut(&'a T) -> std::cmp::Ordering>[ <[T]>::binary_search_by ](s: &'a [T], f: F) -> (r: Result<usize, usize>)
+    ensures match r { Ok(i) => i < s@.len(), Err(i) => i <= s@.len() };
+// derived PartialOrd / Ord on InfoHash (lexicographic on the 20 bytes; info_hash.rs:15): opaque here, no ordering fact is used
+impl PartialOrd for InfoHash { #[verifier::external_body] fn partial_cmp(&self, o: &InfoHash) -> Option<std::cmp::Ordering> { unimplemented!() } }
+impl Ord for InfoHash { #[verifier::external_body] fn cmp(&self, o: &InfoHash) -> std::cmp::Ordering { unimplemented!() } }
+impl vstd::std_specs::convert::FromSpecImpl<[u8; INFO_HASH_LEN]> for InfoHash {
+    open spec fn obeys_from_spec() -> bool { true }
+    open spec fn from_spec(hash: [u8; INFO_HASH_LEN]) -> InfoHash { InfoHash(hash) }
+}
+impl From<[u8; INFO_HASH_LEN]> for InfoHash {
+//@begin fn src/info_hash.rs impl:From<[u8;INFO_HASH_LEN]>@for@InfoHash from
+    fn from(hash: [u8; INFO_HASH_LEN]) -> (r: InfoHash) ensures r == InfoHash(hash) {
+        Self(hash)
+    }
+//@end
+}
+// TRUSTED stand-in (rule R-extconst) for SocketAddr::from((Ipv4Addr::UNSPECIFIED, 0)): some socket address
 #[verifier::external_body]
-pub fn insert_sorted_node(nodes: &mut Vec<(Distance, NodeHandle, bool)>, target: InfoHash, node: NodeHandle, pinged: bool) { unimplemented!() }
-#[verifier::external_body]
+pub fn vx_unspecified_addr() -> SocketAddr { unimplemented!() }
+/// VERIFIED helper (rule R-fold): Iterator::fold by its definition
+#[verifier::exec_allows_no_decreases_clause]
+pub fn vx_fold<I: Iterator, B, F: Fn(B, I::Item) -> B>(it: I, init: B, f: F) -> (r: B)
+    requires forall|b: B, x: I::Item| #[trigger] call_requires(f, (b, x)),
+{
+    let mut it = it;
+    let mut acc = init;
+    loop
+        invariant forall|b: B, x: I::Item| #[trigger] call_requires(f, (b, x)),
+    {
+        let nx = it.next();
+        if nx.is_none() { break; }
+        acc = f(acc, nx.unwrap());
+    }
+    acc
+}
+
+//@begin fn src/action/lookup.rs - pick_initial_nodes props=C03
+#[verifier::exec_allows_no_decreases_clause]
 pub fn pick_initial_nodes<'a, I>(sorted_nodes: I) -> [(NodeHandle, bool); INITIAL_PICK_NUM]
-    where I: Iterator<Item = &'a mut (Distance, NodeHandle, bool)>
-{ unimplemented!() }
+where
+    I: Iterator<Item = &'a mut (Distance, NodeHandle, bool)>,
+{
+    let dummy_id = [0u8; INFO_HASH_LEN].into();
+    let default = (
+        NodeHandle::new(dummy_id, vx_unspecified_addr()),
+        false,
+    );
+
+    let mut pick_nodes = [default; INITIAL_PICK_NUM];
+    let mut vx_it = sorted_nodes.zip(pick_nodes.iter_mut());
+    loop {
+        let vx_nx = vx_it.next();
+        if vx_nx.is_none() {
+            break;
+        }
+        let (src, dst) = vx_nx.unwrap();
+        dst.0 = src.1;
+        dst.1 = true;
+
+        // Mark that the node has been requested from
+        src.2 = true;
+    }
+
+    pick_nodes
+}
+//@end
+
+//@begin fn src/action/lookup.rs - pick_iterate_nodes props=C03
+#[verifier::exec_allows_no_decreases_clause]
+pub fn pick_iterate_nodes<I>(
+    unsorted_nodes: I,
+    target_id: InfoHash,
+) -> [(NodeHandle, bool); ITERATIVE_PICK_NUM]
+where
+    I: Iterator<Item = NodeHandle>,
+{
+    let dummy_id = [0u8; INFO_HASH_LEN].into();
+    let default = (
+        NodeHandle::new(dummy_id, vx_unspecified_addr()),
+        false,
+    );
+
+    let mut pick_nodes = [default; ITERATIVE_PICK_NUM];
+    let mut vx_it = unsorted_nodes;
+    loop {
+        let vx_nx = vx_it.next();
+        if vx_nx.is_none() {
+            break;
+        }
+        let node = vx_nx.unwrap();
+        insert_closest_nodes(&mut pick_nodes, target_id, node);
+    }
+
+    pick_nodes
+}
+//@end
+
+//@begin fn src/action/lookup.rs - insert_closest_nodes props=C03
+pub fn insert_closest_nodes(
+    nodes: &mut [(NodeHandle, bool)],
+    target_id: InfoHash,
+    new_node: NodeHandle,
+) {
+    let new_distance = target_id ^ new_node.id;
+
+    for (old_node, used) in nodes.iter_mut() {
+        if !*used {
+            // Slot was not in use, go ahead and place the node
+            *old_node = new_node;
+            *used = true;
+            return;
+        } else {
+            // Slot is in use, see if our node is closer to the target
+            let old_distance = target_id ^ old_node.id;
+
+            if new_distance < old_distance {
+                *old_node = new_node;
+                return;
+            }
+        }
+    }
+}
+//@end
+
+//@begin fn src/action/lookup.rs - insert_sorted_node props=C03
+pub fn insert_sorted_node(
+    nodes: &mut Vec<(Distance, NodeHandle, bool)>,
+    target: InfoHash,
+    node: NodeHandle,
+    pinged: bool,
+) {
+    let node_id = node.id;
+    let node_dist = target ^ node_id;
+
+    // Perform a search by distance from the target id
+    let search_result = nodes.binary_search_by(|p: &(Distance, NodeHandle, bool)| -> (o: std::cmp::Ordering) { let (dist, _, _) = p; dist.cmp(&node_dist) });
+    match search_result {
+        Ok(dup_index) => {
+            // TODO: Bug here, what happens when multiple nodes with the same distance are
+            // present, but we dont get the index of the duplicate node (its in the list) from
+            // the search, then we would have a duplicate node in the list!
+            // Insert only if this node is different (it is ok if they have the same id)
+            if nodes[dup_index].1 != node {
+                nodes.insert(dup_index, (node_dist, node, pinged));
+            }
+        }
+        Err(ins_index) => nodes.insert(ins_index, (node_dist, node, pinged)),
+    };
+}
+//@end
 // TRUSTED: InfoHash ^ InfoHash (info_hash.rs:140-150, bytewise xor; bit-level facts come from Kani)
 pub uninterp spec fn ih_xor(a: InfoHash, b: InfoHash) -> InfoHash;
 impl vstd::std_specs::ops::BitXorSpecImpl<InfoHash> for InfoHash {
@@ -151,6 +288,12 @@ pub open spec fn lookup_query(l: TableLookup, e: Ev) -> bool {
     && (forall|t: TransactionID| #[trigger] t.bytes@ == m.transaction_id@ ==> tid_value(t) >> 24 == l.id_generator.action_id >> 24)
 }
 
+/// C03: every id this search is waiting for is an id of this search (its generator's 5-byte action prefix); established by `new`,
+/// preserved by every operation -- so "an outstanding query" is always a query this very search registered
+pub open spec fn outstanding_ids_ok(l: TableLookup) -> bool {
+    forall|t: TransactionID| #[trigger] l.active_lookups@.contains_key(t) ==> tid_value(t) >> 24 == l.id_generator.action_id >> 24
+}
+
 impl TableLookup {
 //@begin fn src/action/lookup.rs impl:TableLookup new rules=R-deasync props=C03,C19,C17
     #[verifier::exec_allows_no_decreases_clause]
@@ -167,6 +310,7 @@ impl TableLookup {
         requires old(timer).wf()
         ensures r.target_id == target_id, r.will_announce == will_announce, r.id_generator.action_id == id_generator.action_id, !r.in_endgame,
             r.announce_tokens@.len() == 0, // @C03.new_search_knows_no_token
+            outstanding_ids_ok(r), // @C03.outstanding_ids_belong_to_this_search
             // creating a search is recorded as the (ghost) LookupStart event; what follows is its first round of queries
             final(tr).ev.len() > old(tr).ev.len(), final(tr).ev[old(tr).ev.len() as int] == Ev::LookupStart(target_id, will_announce),
             only_requests_and_yields(old(tr).ev.push(Ev::LookupStart(target_id, will_announce)), final(tr).ev), // @C03.first_round_only_queries
@@ -257,6 +401,7 @@ impl TableLookup {
         I: Iterator<Item = (&'a NodeHandle, DistanceToBeat)>,
         requires old(timer).wf()
         ensures only_requests_and_yields(old(tr).ev, final(tr).ev), no_yield(old(tr).ev, final(tr).ev), // @C03.request_round_only_queries
+            outstanding_ids_ok(*old(self)) ==> outstanding_ids_ok(*final(self)), // @C03.outstanding_ids_belong_to_this_search
             no_new_refresh(*old(timer), *final(timer)),
             final(self).announce_tokens == old(self).announce_tokens, final(self).will_announce == old(self).will_announce, // @C03.request_round_keeps_tokens
             final(self).target_id == old(self).target_id, final(self).this_node_id == old(self).this_node_id, final(self).in_endgame == old(self).in_endgame,
@@ -265,6 +410,7 @@ impl TableLookup {
             forall|i: int| old(tr).ev.len() <= i < final(tr).ev.len() && #[trigger] final(tr).ev[i] is Send ==> lookup_query(*old(self), final(tr).ev[i]), // @C19.lookup_queries_carry_8_byte_ids_of_the_search
             forall|i: int| old(tr).ev.len() <= i < final(tr).ev.len() && #[trigger] final(tr).ev[i] is Send ==> blen(final(tr).ev[i]->Send_0) <= 1500, // @C17.lookup_queries_fit_1500_bytes
     {
+        broadcast use vstd::std_specs::hash::group_hash_axioms, tid_key_model;
         proof { lemma_consts(); }
         let ghost ev0 = tr.ev;
         // Loop through the given nodes
@@ -272,6 +418,7 @@ impl TableLookup {
         let mut vx_it = nodes;
         loop
             invariant only_requests_and_yields(ev0, tr.ev), no_yield(ev0, tr.ev), // @C03.request_round_only_queries
+                outstanding_ids_ok(*old(self)) ==> outstanding_ids_ok(*self), // @C03.outstanding_ids_belong_to_this_search
                 no_new_refresh(*old(timer), *timer),
                 self.announce_tokens == old(self).announce_tokens, self.will_announce == old(self).will_announce, // @C03.request_round_keeps_tokens
                 self.target_id == old(self).target_id, self.this_node_id == old(self).this_node_id, self.in_endgame == old(self).in_endgame,
@@ -279,6 +426,7 @@ impl TableLookup {
                 forall|i: int| ev0.len() <= i < tr.ev.len() && #[trigger] tr.ev[i] is Send ==> lookup_query(*old(self), tr.ev[i]), // @C19.lookup_queries_carry_8_byte_ids_of_the_search
                 forall|i: int| ev0.len() <= i < tr.ev.len() && #[trigger] tr.ev[i] is Send ==> blen(tr.ev[i]->Send_0) <= 1500, // @C17.lookup_queries_fit_1500_bytes
         {
+            broadcast use vstd::std_specs::hash::group_hash_axioms, tid_key_model;
             let vx_nx = vx_it.next();
             if vx_nx.is_none() {
                 break;
@@ -343,6 +491,7 @@ impl TableLookup {
     ) -> (r: ActionStatus)
         requires old(timer).wf()
         ensures only_requests_and_yields(old(tr).ev, final(tr).ev), no_yield(old(tr).ev, final(tr).ev), // @C03.endgame_round_only_queries
+            outstanding_ids_ok(*old(self)) ==> outstanding_ids_ok(*final(self)), // @C03.outstanding_ids_belong_to_this_search
             no_new_refresh(*old(timer), *final(timer)),
             final(self).announce_tokens == old(self).announce_tokens, final(self).will_announce == old(self).will_announce, // @C03.endgame_round_keeps_tokens
             final(self).target_id == old(self).target_id, final(self).this_node_id == old(self).this_node_id,
@@ -350,6 +499,7 @@ impl TableLookup {
             forall|i: int| old(tr).ev.len() <= i < final(tr).ev.len() && #[trigger] final(tr).ev[i] is Send ==> lookup_query(*old(self), final(tr).ev[i]), // @C19.lookup_queries_carry_8_byte_ids_of_the_search
             forall|i: int| old(tr).ev.len() <= i < final(tr).ev.len() && #[trigger] final(tr).ev[i] is Send ==> blen(final(tr).ev[i]->Send_0) <= 1500, // @C17.lookup_queries_fit_1500_bytes
     {
+        broadcast use vstd::std_specs::hash::group_hash_axioms, tid_key_model;
         proof { lemma_consts(); }
         let ghost ev0 = tr.ev;
         // Entering the endgame phase
@@ -366,6 +516,7 @@ impl TableLookup {
             let mut vx_it = self.all_sorted_nodes.iter_mut().filter(|p: &&mut (Distance, NodeHandle, bool)| -> (b: bool) { let (_, _, req) = p; !req });
             loop
                 invariant only_requests_and_yields(ev0, tr.ev), no_yield(ev0, tr.ev), // @C03.endgame_round_only_queries
+                    outstanding_ids_ok(*old(self)) ==> outstanding_ids_ok(*self), // @C03.outstanding_ids_belong_to_this_search
                     no_new_refresh(*old(timer), *timer),
                     self.announce_tokens == old(self).announce_tokens, self.will_announce == old(self).will_announce, // @C03.endgame_round_keeps_tokens
                     self.target_id == old(self).target_id, self.this_node_id == old(self).this_node_id,
@@ -373,6 +524,7 @@ impl TableLookup {
                     forall|i: int| ev0.len() <= i < tr.ev.len() && #[trigger] tr.ev[i] is Send ==> lookup_query(*old(self), tr.ev[i]), // @C19.lookup_queries_carry_8_byte_ids_of_the_search
                     forall|i: int| ev0.len() <= i < tr.ev.len() && #[trigger] tr.ev[i] is Send ==> blen(tr.ev[i]->Send_0) <= 1500, // @C17.lookup_queries_fit_1500_bytes
             {
+                broadcast use vstd::std_specs::hash::group_hash_axioms, tid_key_model;
                 let vx_nx = vx_it.next();
                 if vx_nx.is_none() {
                     break;
@@ -439,6 +591,7 @@ impl TableLookup {
             // C03: the token is recorded under the responder's (id, address), replacing any older one
             old(self).active_lookups@.contains_key(*trans_id) ==> final(self).announce_tokens@ == (if msg.token is Some { old(self).announce_tokens@.insert(node.handle, msg.token->0) } else { old(self).announce_tokens@ }), // @C03.latest_token_recorded_under_responder
             no_replies(old(tr).ev, final(tr).ev), only_requests_and_yields(old(tr).ev, final(tr).ev), // @C05.responses_never_answered
+            outstanding_ids_ok(*old(self)) ==> outstanding_ids_ok(*final(self)), // @C03.outstanding_ids_belong_to_this_search
             no_new_refresh(*old(timer), *final(timer)),
             final(self).will_announce == old(self).will_announce, final(self).target_id == old(self).target_id, final(self).this_node_id == old(self).this_node_id,
             final(self).id_generator.action_id == old(self).id_generator.action_id,
@@ -474,7 +627,66 @@ impl TableLookup {
         let values = msg.values;
 
         // Check if we beat the distance, get the next distance to beat
-        let (iterate_nodes, next_dist_to_beat) = vx_abs_pick_nodes(&mut self.all_sorted_nodes, &self.requested_nodes, nodes, dist_to_beat, self.target_id);
+        let (iterate_nodes, next_dist_to_beat) = if !nodes.is_empty() {
+            let requested_nodes = &self.requested_nodes;
+
+            // Get the closest distance (or the current distance)
+            let next_dist_to_beat = vx_fold(nodes
+                .iter()
+                .filter(|node: &&NodeHandle| -> (b: bool) { !requested_nodes.contains(node) })
+                , dist_to_beat, |closest: InfoHash, node: &NodeHandle| -> (r: InfoHash) { {
+                    let distance = self.target_id ^ node.id;
+
+                    if distance < closest {
+                        distance
+                    } else {
+                        closest
+                    }
+                } });
+
+            // Check if we got closer (equal to is not enough)
+            let iterate_nodes = if next_dist_to_beat < dist_to_beat {
+                let iterate_nodes = pick_iterate_nodes(
+                    nodes
+                        .iter()
+                        .filter(|node: &&NodeHandle| -> (b: bool) { !requested_nodes.contains(node) })
+                        .map(|vx_x: &NodeHandle| -> (r: NodeHandle) { *vx_x }),
+                    self.target_id,
+                );
+
+                // Push nodes into the all nodes list
+                let mut vx_i: usize = 0;
+                while vx_i < nodes.len()
+                    invariant vx_i <= nodes.len(),
+                    decreases nodes.len() - vx_i,
+                {
+                    let node = nodes[vx_i];
+                    vx_i += 1;
+                    let will_ping = iterate_nodes.iter().any(|p: &(NodeHandle, bool)| -> (b: bool) { let (n, _) = p; n == &node });
+
+                    insert_sorted_node(&mut self.all_sorted_nodes, self.target_id, node, will_ping);
+                }
+
+                Some(iterate_nodes)
+            } else {
+                // Push nodes into the all nodes list
+                let mut vx_i: usize = 0;
+                while vx_i < nodes.len()
+                    invariant vx_i <= nodes.len(),
+                    decreases nodes.len() - vx_i,
+                {
+                    let node = nodes[vx_i];
+                    vx_i += 1;
+                    insert_sorted_node(&mut self.all_sorted_nodes, self.target_id, node, false);
+                }
+
+                None
+            };
+
+            (iterate_nodes, next_dist_to_beat)
+        } else {
+            (None, dist_to_beat)
+        };
 
         // Check if we need to iterate (not in the endgame already)
         if !self.in_endgame {
@@ -534,6 +746,7 @@ impl TableLookup {
         ensures
             !old(self).active_lookups@.contains_key(*trans_id) ==> final(tr).ev == old(tr).ev && *final(timer) == *old(timer) && final(self).active_lookups@ == old(self).active_lookups@, // @C03.unknown_timeout_changes_nothing
             only_requests_and_yields(old(tr).ev, final(tr).ev), no_yield(old(tr).ev, final(tr).ev), // @C03.timeouts_yield_nothing
+            outstanding_ids_ok(*old(self)) ==> outstanding_ids_ok(*final(self)), // @C03.outstanding_ids_belong_to_this_search
             no_new_refresh(*old(timer), *final(timer)),
             final(self).announce_tokens == old(self).announce_tokens, final(self).will_announce == old(self).will_announce,
             forall|i: int| old(tr).ev.len() <= i < final(tr).ev.len() && #[trigger] final(tr).ev[i] is Send ==> lookup_query(*old(self), final(tr).ev[i]), // @C19.lookup_queries_carry_8_byte_ids_of_the_search
